@@ -559,6 +559,7 @@ def trk_consts(maxold, maxfresh, moves, authors=("H", "A1"), reporters=("H", "A1
 
 
 TRK_VARIANTS = [(f, p) for f in _fn.TRK_FAMILIES for p in _fn.TRK_PRIORS]
+TRK_STRICT = [(f, p) for f in ("plain", "crlf", "nonl", "multibyte", "long") for p in ("exact", "merged", "unsorted")]
 PLANS["C16"] = {
     "clauses": ["C16_Total", "C16_Bounded", "C16_Chars", "C16_Lines", "C16_RoundTrip"],
     "module": "Tracker.tla", "const_keys": ["MaxOld", "MaxFresh", "Authors", "Reporters", "WithMoves", "Dev", "Mode"],
@@ -575,12 +576,17 @@ PLANS["C16"] = {
         "(the 'repeated' family and overlapping / malformed priors only count for totality and boundedness)",
     ],
     "quick": [
-        dict(name="edits", consts=trk_consts(3, 2, True), invariants=["G_Chars", "G_Lines"], budget=5000,
+        dict(name="edits", consts=trk_consts(3, 2, False), invariants=["G_Chars", "G_Lines"], budget=4500,
              variants=TRK_VARIANTS, per_tag=1),
+        # block moves and swaps of two blocks: every case in every family where the answer is forced
+        dict(name="moves", consts=trk_consts(0, 0, True), invariants=["G_Chars", "G_Lines"], budget=1000,
+             variants=TRK_STRICT, per_tag=1, all_variants=True),
     ],
     "thorough": [
-        dict(name="edits", consts=trk_consts(4, 2, True), invariants=["G_Chars", "G_Lines"], budget=60000,
+        dict(name="edits", consts=trk_consts(4, 2, False), invariants=["G_Chars", "G_Lines"], budget=60000,
              variants=TRK_VARIANTS, per_tag=1, timeout=3000),
+        dict(name="moves", consts=trk_consts(0, 0, True, authors=("H", "A1", "A2")), invariants=["G_Chars", "G_Lines"],
+             budget=5000, variants=TRK_VARIANTS, per_tag=1, all_variants=True),
     ],
 }
 CHECKS["C16"] = _core
@@ -589,12 +595,15 @@ CHECKS["C16"] = _core
 # ------------------------------------------------------------------------------------------ C20 hook ingestion
 def ingest_consts(presets=_fn.ING_PRESETS, shapes=_fn.ING_SHAPES, layouts=_fn.ING_LAYOUTS, locs=_fn.ING_LOCS):
     return {"Presets": list(presets), "ValidPresets": ["agent-v1", "claude"], "Shapes": list(shapes),
-            "Layouts": list(layouts), "Locations": list(locs), "Kinds": ["ai", "human"], "Mode": "gen"}
+            "Layouts": list(layouts), "Locations": list(locs), "BatchLocations": list(_fn.ING_BATCH_LOCS),
+            "Kinds": ["ai", "human"], "Mode": "gen"}
 
 
 PLANS["C20"] = {
-    "clauses": ["C20_ExitZero", "C20_NoPanic", "C20_Readable", "C20_OnlyContaining"], "level": "fault_enumeration",
-    "module": "Ingest.tla", "const_keys": ["Presets", "ValidPresets", "Shapes", "Layouts", "Locations", "Kinds", "Mode"],
+    "clauses": ["C20_ExitZero", "C20_NoPanic", "C20_Readable", "C20_OnlyContaining", "C20_BatchIndependent"],
+    "level": "fault_enumeration",
+    "module": "Ingest.tla", "const_keys": ["Presets", "ValidPresets", "Shapes", "Layouts", "Locations", "BatchLocations",
+                                           "Kinds", "Mode"],
     "executor": _fn.execute_ingest, "tagger": _fn.ingest_tags, "end_event": {"ev": "reset", "run": "end"},
     "chunk": 3000, "expect_actions": {"any": ["Hook"]},
     "rule": "the grid preset x payload shape x repository layout (malformed payloads) and preset x layout x file "
